@@ -4,7 +4,7 @@
    Model: Model/BstParser.v (pybtex/bibtex/bst.py, pybtex/scanner.py); printer and the classes of
    programs / layouts the statements speak about: Spec/BstPrint.v. *)
 From Pybtex Require Import Base.Prelude Base.PyChar Base.PyStr Model.BstParser Spec.BstPrint
-  Proofs.BstComment Proofs.BstLex Proofs.BstRoundtrip Proofs.BstErrors Proofs.BstArity Proofs.BstSource Proofs.BstTotal Proofs.BstLast Proofs.BstSound.
+  Proofs.BstComment Proofs.BstLex Proofs.BstRoundtrip Proofs.BstErrors Proofs.BstArity Proofs.BstSource Proofs.BstTotal Proofs.BstLast Proofs.BstSound Proofs.BstStream Proofs.BstFile.
 
 (* %-comments: strip_comment keeps exactly the part of the line before the first percent sign that
    has an even number of double quotes before it (a percent sign inside a string literal is not a
@@ -212,3 +212,40 @@ Example accepted_example :
   parse_string (s2l "function{f}{#-007 'x} % c
    Read ") = Ok [(s2l "function", [[TId (s2l "f")]; [TInt (-7); TQuote (s2l "x")]]); (s2l "Read", [])].
 Proof. vm_compute. reflexivity. Qed.
+
+(* the three entry points agree: on every printed source whose comments are closed by LF or CRLF,
+   list(parse_string(src)), list(parse_stream(<the lines of a text stream over src>)) -- lines end
+   after LF and keep it, as io.StringIO and open files give them; each is rstrip()ped, then comment-
+   stripped -- and list(parse_file(<a file containing src>)) -- universal newlines -- all return the
+   program.  (A stream splits at LF only, so a comment closed by a bare CR, VT, FF ... would run on
+   to the next LF there; parse_file alone also admits comments closed by a bare CR: file_roundtrip.) *)
+Theorem entry_points_agree : forall p gs,
+  wf_programb p = true -> src_programb p = true -> slayout_okb None gs (flat_program p) = true ->
+  stream_gaps_okb gs = true ->
+  let src := print_bst (map sgap_text gs) p in
+  parse_string src = Ok p /\ parse_stream (lines_keepends src) = Ok p /\ parse_file src = Ok p.
+Proof. exact Proofs.BstFile.entry_points_agree3. Qed.
+Print Assumptions entry_points_agree.
+
+Theorem file_roundtrip : forall p gs,
+  wf_programb p = true -> src_programb p = true -> slayout_okb None gs (flat_program p) = true ->
+  file_gaps_okb gs = true ->
+  parse_file (print_bst (map sgap_text gs) p) = Ok p.
+Proof. exact Proofs.BstFile.file_roundtrip. Qed.
+Print Assumptions file_roundtrip.
+
+Definition example_stream_layout : list sgap :=
+  [ [GCom (s2l " header ""quoted"" { ENTRY") (BrChar 10)]; []; [GWs 32]; [GBrk BrCRLF; GWs 9]; [];
+    [GCom (s2l "}") BrCRLF; GBrk (BrChar 10)]; []; []; []; [GWs 160]; []; [GWs 32; GWs 32; GBrk (BrChar 10)]; []; [];
+    [GBrk (BrChar 12)]; [GWs 32; GCom [] (BrChar 10)]; []; [GBrk BrCR; GWs 32; GBrk (BrChar 10)]; [GWs 32; GBrk BrCR] ]%N.
+Definition example_file_layout : list sgap :=
+  [ [GCom (s2l " header") BrCR]; []; [GWs 32]; [GBrk BrCRLF; GWs 9]; [];
+    [GCom (s2l "}") BrCRLF; GBrk (BrChar 10)]; []; []; []; [GWs 160]; []; [GWs 32; GBrk BrCR]; []; [];
+    [GBrk (BrChar 12)]; [GWs 32; GCom [] (BrChar 10)]; []; [GCom (s2l "c") BrCR; GWs 32; GBrk (BrChar 10)]; [GBrk BrCR] ]%N.
+Example entry_points_example :
+  slayout_okb None example_stream_layout (flat_program example_program) = true /\
+  stream_gaps_okb example_stream_layout = true /\
+  slayout_okb None example_file_layout (flat_program example_program) = true /\ file_gaps_okb example_file_layout = true /\
+  parse_stream (lines_keepends (print_bst (map sgap_text example_stream_layout) example_program)) = Ok example_program /\
+  parse_file (print_bst (map sgap_text example_file_layout) example_program) = Ok example_program.
+Proof. vm_compute. repeat split; reflexivity. Qed.
